@@ -383,9 +383,9 @@ fn char_arm_body<I: InputIndexer>(input: I, c: u32, fwd: bool) {
     core::mem::forget(cr);
 }
 
-// @verif props=C13,C01 tier=quick timeout=1500 unwind=6 bound="[Alt, Char(c), Goal | Goal] with any c > 0xFF on AsciiInput over 2 symbolic ASCII bytes, both directions" funcs="MatchAttempter<AsciiInput>::try_at_pos(Alt,Char),try_backtrack(SetPosition),ElementType::try_from"
+// @verif props=C13,C01 tier=quick timeout=2400 mem=12 unwind=4 bound="[Alt, Char(c), Goal | Goal] with any c > 0xFF on AsciiInput over 2 symbolic ASCII bytes, both directions" funcs="MatchAttempter<AsciiInput>::try_at_pos(Alt,Char),try_backtrack(SetPosition),ElementType::try_from"
 #[kani::proof]
-#[kani::unwind(6)]
+#[kani::unwind(4)]
 fn c13_char_arm_unrepresentable_ascii() {
     let b: [u8; 2] = kani::any();
     kani::assume(b[0] < 0x80 && b[1] < 0x80);
@@ -397,9 +397,9 @@ fn c13_char_arm_unrepresentable_ascii() {
     kani::cover!(c == 0x17F, "long s");
 }
 
-// @verif props=C01,C06 tier=quick timeout=1500 unwind=6 bound="[Alt, Char(c), Goal | Goal] with any surrogate c on Utf8Input over 2 symbolic ASCII bytes, both directions" funcs="MatchAttempter<Utf8Input>::try_at_pos(Alt,Char),try_backtrack(SetPosition)"
+// @verif props=C01,C06 tier=quick timeout=2400 mem=12 unwind=4 bound="[Alt, Char(c), Goal | Goal] with any surrogate c on Utf8Input over 2 symbolic ASCII bytes, both directions" funcs="MatchAttempter<Utf8Input>::try_at_pos(Alt,Char),try_backtrack(SetPosition)"
 #[kani::proof]
-#[kani::unwind(6)]
+#[kani::unwind(4)]
 fn c01_char_arm_surrogate_utf8() {
     let b: [u8; 2] = kani::any();
     kani::assume(b[0] < 0x80 && b[1] < 0x80);
